@@ -273,7 +273,7 @@ def m_slice_iter(ctx):
     base, off, L = slice_parts(ctx, 0)
     if L is None:
         return None
-    return [ctx.ret(("iter", (("count", L), ("kind", "slice"))))]
+    return [ctx.ret(("iter", (("base", base), ("count", L), ("kind", "slice"), ("off", off))))]
 
 
 def it_get(v, k):
